@@ -38,7 +38,9 @@ SHIPPED = ["adsa", "amaxsum", "dba", "dpop", "dsa", "dsatuto", "gdba", "maxsum",
            "mixeddsa", "ncbb", "syncbb"]
 NAMES = ["p", "q", "stop_cycle", "p_mode", "variant", "x1", "x10", "probability"]
 UNKNOWN = ["Variant", "stop_cycles", "stop", "", "P", "x", "x11", "probability ", "unknown_param", "mode", "values"]
-INT_VALS = [0, 1, -3, 7, 50, 10000, 2 ** 40]
+INT_VALS = [0, 1, -3, 7, 50, 10000, 2 ** 40, 2 ** 53 + 1]
+# strings that are numbers but not integers: an int parameter must reject them (int('2.5') raises)
+BAD_INT_STR = ["2.5", "7.9", "-1.25", "1e3", "20.0", "inf"]
 FLOAT_VALS = [0.0, 0.5, -1.25, 0.7, 1e-3, 3.0, 1e12, float("inf")]
 STR_VALS = ["A", "B", "C", "fixed", "arity", "both", "x y", "", "1", "0.5"]
 BAD_NUM_STR = ["", "abc", "1,5", "0x10", "1.5.2", "--1", "one"]
@@ -123,7 +125,7 @@ def supplied_for(draw, d, cli):
             elif cli and ty != "str":
                 v = repr(v) if ty == "float" else str(v)
     elif kind == "unparseable":
-        v = draw(st.sampled_from(BAD_NUM_STR))
+        v = draw(st.sampled_from(BAD_NUM_STR + (BAD_INT_STR if ty == "int" else [])))
     elif kind == "lossy":
         v = draw(st.sampled_from([2.7, -0.5, 1e-9, 3.999]))
     else:
@@ -223,7 +225,8 @@ def _pick(d, ent, cli):
         if cli and ty != "str":
             v = repr(v)
     elif kind == "unparseable":
-        v = BAD_NUM_STR[ent % len(BAD_NUM_STR)]
+        bad = BAD_NUM_STR + (BAD_INT_STR if ty == "int" else [])
+        v = bad[ent % len(bad)]
     elif kind == "lossy":
         v = [2.7, -0.5, 1e-9, 3.999][ent % 4]
     else:
